@@ -370,7 +370,7 @@ func propC04(r *Run, w *World) {
 			}
 			r.Check(ok, "time.Unix(sec, msec*1e6)", ret.Pos(), "", "the timestamp is not time.Unix(seconds, milliseconds*1e6)")
 			okRet := Term(ret.Results[0]) == "UTC#1" && Term(ret.Results[1]) == "uint32(ParseUint#1#0)" &&
-				Term(ret.Results[2]) == "(IndexRune#4 + (IndexRune#3 + (IndexRune#2 + IndexRune#1)))"
+				Term(ret.Results[2]) == "(IndexRune#1 + IndexRune#2 + IndexRune#3 + IndexRune#4)"
 			r.Check(okRet, "results (time, sequence, end)", ret.Pos(), "", "parseAuditHeader does not return (UTC time, uint32 sequence, index of ')'): "+Term(ret.Results[0])+", "+Term(ret.Results[1])+", "+Term(ret.Results[2]))
 			// the three numbers come from the three consecutive header fields
 			args := map[string]string{}
@@ -383,12 +383,13 @@ func propC04(r *Run, w *World) {
 					}
 				}
 			}
-			start, dot, sep := "IndexRune#1", "(IndexRune#2 + IndexRune#1)", "(IndexRune#3 + (IndexRune#2 + IndexRune#1))"
-			end := "(IndexRune#4 + " + sep + ")"
+			start, dot, sep := "IndexRune#1", "(IndexRune#1 + IndexRune#2)", "(IndexRune#1 + IndexRune#2 + IndexRune#3)"
+			end := "(IndexRune#1 + IndexRune#2 + IndexRune#3 + IndexRune#4)"
+			plus1 := func(sum string) string { return "(" + strings.TrimSuffix(strings.TrimPrefix(sum, "("), ")") + " + 1)" }
 			wantArgs := map[string]string{
-				"ParseInt#1":  "p0[(" + start + " + 1):" + dot + "],10,64",
-				"ParseInt#2":  "p0[(" + dot + " + 1):" + sep + "],10,64",
-				"ParseUint#1": "p0[(" + sep + " + 1):" + end + "],10,32",
+				"ParseInt#1":  "p0[" + plus1(start) + ":" + dot + "],10,64",
+				"ParseInt#2":  "p0[" + plus1(dot) + ":" + sep + "],10,64",
+				"ParseUint#1": "p0[" + plus1(sep) + ":" + end + "],10,32",
 			}
 			okArgs := true
 			for k, v := range wantArgs {
@@ -1233,7 +1234,7 @@ func propC12(r *Run, w *World) {
 			if ret == nil || isNilConst(ret.Results[0]) {
 				continue
 			}
-			r.Check(HoldsAt(ret.Block(), Term(ret.Results[0])+" != nil"), "enrichData error exit "+Term(ret.Results[0]), ret.Pos(), "", "an error exit of enrichData returns something other than the failed decoder's error")
+			r.Check(HoldsAt(ret.Block(), Term(ret.Results[0])+" != nil") || p.HasLit(Term(ret.Results[0])+" != nil"), "enrichData error exit "+Term(ret.Results[0]), ret.Pos(), "", "an error exit of enrichData returns something other than the failed decoder's error")
 		}
 	}
 
@@ -1321,7 +1322,7 @@ func propC12(r *Run, w *World) {
 			okFam := false
 			for _, c := range callsNamedIn(ps, "auparse.hexToDec") {
 				if termAlias[c.Value()] == "hexToDec#1" {
-					okFam = Term(c.Common().Args[0]) == "(p0[2:4] + p0[0:2])"
+					okFam = Term(c.Common().Args[0]) == "(p0[2:4] + p0[:2])"
 				}
 			}
 			r.Check(okFam, "family = host-order s[2:4]+s[0:2]", ps.Pos(), "", "the address family is not read from the first two bytes in host order")
@@ -1388,7 +1389,7 @@ func propC12(r *Run, w *World) {
 					r.Check(HoldsAt(s.Block(), "len(p0) == 8"), "hexToIP slice "+Term(s), s.Pos(), "", "IPv4 octet slice without len(h) == 8")
 				}
 			})
-			r.Check(strings.Join(sl, " ") == "p0[0:2] p0[2:4] p0[4:6] p0[6:8]", "hexToIP octets", hi.Pos(), "", "IPv4 octets are not h[0:2] h[2:4] h[4:6] h[6:8]: "+strings.Join(sl, " "))
+			r.Check(strings.Join(sl, " ") == "p0[:2] p0[2:4] p0[4:6] p0[6:8]", "hexToIP octets", hi.Pos(), "", "IPv4 octets are not h[0:2] h[2:4] h[4:6] h[6:8]: "+strings.Join(sl, " "))
 			okFmt := false
 			for _, c := range callsNamedIn(hi, "fmt.Sprintf") {
 				f, _ := constString(c.Common().Args[0])
@@ -1442,8 +1443,8 @@ func propC12(r *Run, w *World) {
 			for _, c := range callsNamedIn(fn, "(auparse.fieldMap).setFieldValue") {
 				a := c.Common().Args
 				k, _ := constString(a[1])
-				ok = k == "exit" && Term(a[2]) == "auparse.AuditErrnoToName[(-1 * Atoi#1#0)]" && HoldsAt(c.Block(), "Atoi#1#0 < 0") &&
-					HoldsAt(c.Block(), "has(auparse.AuditErrnoToName, (-1 * Atoi#1#0))")
+				ok = k == "exit" && Term(a[2]) == "auparse.AuditErrnoToName[(Atoi#1#0 * -1)]" && HoldsAt(c.Block(), "Atoi#1#0 < 0") &&
+					HoldsAt(c.Block(), "has(auparse.AuditErrnoToName, (Atoi#1#0 * -1))")
 			}
 			r.Check(ok, "exit", fn.Pos(), "negative exit → errno name", "negative exit codes are not translated through AuditErrnoToName[-code] (non-negative left unchanged)")
 			undo()
